@@ -103,11 +103,14 @@ func webSequences(c *vk.Ctx, ps map[string][]byte, names []string, idx *int64) {
 // webConcurrent: 2-3 requests served concurrently by controlled threads; all
 // interleavings up to the preemption bound; each response equals its solo response.
 func webConcurrent(c *vk.Ctx, ps map[string][]byte, names []string, idx *int64) {
-	preempt := 2
+	// function-entry scheduling points in package driver (flavour instrd) make every
+	// function call of a request a possible preemption point
+	preempt := 1
 	if c.Thorough() {
-		preempt = 3
+		preempt = 2
 	}
-	reqs := []string{"/top?f=a", "/flamegraph", "/peek?f=a", "/download", "/top?g=lines&h=b", "/source?f=a"}
+	// the last two requests emit warnings ("matched no samples"), which are shown on the page
+	reqs := []string{"/top?f=a", "/flamegraph", "/peek?f=a", "/download", "/top?g=lines&h=b", "/source?f=a", "/top?f=nosuchfunction", "/top?tagroot=nosuchtag"}
 	var mixes [][]string
 	for i := range reqs {
 		for j := i; j < len(reqs); j++ {
@@ -159,6 +162,9 @@ func webConcurrent(c *vk.Ctx, ps map[string][]byte, names []string, idx *int64) 
 			case x.Diverged != "":
 				c.Violation("harness/divergence", w, x.Diverged)
 				return true
+			case x.Hung != "":
+				c.Violation("concurrent-web/hang", w, x.Hung)
+				return false
 			case x.Deadlock != "":
 				c.Violation("concurrent-web/deadlock", w, x.Deadlock)
 				return true
